@@ -109,6 +109,13 @@ def ident(inp):
         z = inp['error_model']['parameters']
         key = (c['name'], p['L_x'], p['L_y'], (z['r_x'], z['r_y'], z['r_z']), inp['decoder']['name'],
                inp['error_rate'])
+        # same class names but other parameter values / another method = another simulation
+        if any(v is not None for v in inp['decoder'].get('parameters', {}).values()):
+            return 999
+        if z.get('deformation_name') is not None or z.get('deformation_kwargs') not in (None, {}):
+            return 999
+        if inp.get('method', {'name': 'direct'}).get('name') != 'direct':
+            return 999
         return KEY2ID.get(key, 999)
     except Exception:  # noqa: BLE001
         return 998
@@ -135,6 +142,12 @@ def foreign_inputs(e, variant):
         inp['decoder']['name'] = 'BeliefPropagationOSDDecoder'
     elif variant == 'code':
         inp['code']['name'] = 'Planar2DCode'
+    elif variant == 'decoder_params':       # same decoder class, another parameter value
+        inp['decoder']['parameters']['error_type'] = 'X'
+    elif variant == 'noise_params':         # same direction, deformed noise
+        inp['error_model']['parameters']['deformation_name'] = 'XZZX'
+    elif variant == 'method':
+        inp['method'] = {'name': 'splitting', 'parameters': {'n_init_runs': 20}}
     return inp
 
 
@@ -707,7 +720,7 @@ def foreign_scenarios(rng, count, wellformed_only=False):
     """results files that exist before the run: torn / empty files, records of other simulations
     (differing in one component), records of requested simulations, malformed records"""
     out = []
-    variants = ['rate', 'size', 'noise', 'decoder', 'code']
+    variants = ['rate', 'size', 'noise', 'decoder', 'code', 'decoder_params', 'noise_params', 'method']
     for c in range(count):
         fmt = 'gz' if rng.random() < 0.5 else 'json'
         spec = grow(rng, [], int(rng.integers(1, 4)))
